@@ -28,30 +28,6 @@ def savedFrames : List Request → List Frame
   | .save f :: rs => f :: savedFrames rs
   | _ :: rs => savedFrames rs
 
-theorem userExecute_fields (s : P2P) (saves : List (Frame × Option Nat)) :
-    (s.userExecute saves).sync.queues = s.sync.queues ∧ (s.userExecute saves).sync.currentFrame = s.sync.currentFrame ∧
-    (s.userExecute saves).sync.cells.length = s.sync.cells.length ∧
-    (s.userExecute saves).pred = s.pred ∧ (s.userExecute saves).localConnectStatus = s.localConnectStatus ∧
-    (s.userExecute saves).handles = s.handles ∧ (s.userExecute saves).sparse = s.sparse := by
-  unfold P2P.userExecute
-  have key : ∀ (l : List (Frame × Option Nat)) (sy : SyncLayer),
-      (l.foldl (fun sy (p : Frame × Option Nat) => sy.userSave p.1 p.2) sy).queues = sy.queues ∧
-      (l.foldl (fun sy (p : Frame × Option Nat) => sy.userSave p.1 p.2) sy).currentFrame = sy.currentFrame ∧
-      (l.foldl (fun sy (p : Frame × Option Nat) => sy.userSave p.1 p.2) sy).cells.length = sy.cells.length := by
-    intro l
-    induction l with
-    | nil => intro sy; exact ⟨rfl, rfl, rfl⟩
-    | cons a as ih =>
-      intro sy
-      simp only [List.foldl_cons]
-      obtain ⟨h1, h2, h3⟩ := ih (sy.userSave a.1 a.2)
-      exact ⟨h1, h2, by rw [h3]; simp [SyncLayer.userSave, rset]⟩
-  obtain ⟨h1, h2, h3⟩ := key saves s.sync
-  refine ⟨?_, ?_, ?_, rfl, rfl, rfl, rfl⟩
-  · exact h1
-  · exact h2
-  · exact h3
-
 /-- The cells' tags after the user executed the saves of a checked request list. -/
 theorem userExecute_tags (n : Nat) (hn : 0 < n) : ∀ (rs : List Request) (saves : List (Frame × Option Nat)) (sy : SyncLayer)
     (tag : Nat → Int), sy.cells.length = n → (∀ i, i < n → tag i = (rget sy.cells i).frame) →
@@ -114,26 +90,6 @@ theorem chk_saved_nonneg (n : Nat) (c c' : CS) (rs : List Request) (h : ChkList 
 end Ggrs
 
 namespace Ggrs
-
-/-- The session invariant does not look at the cells. -/
-theorem SessInv_sameQueues (s s2 : P2P) (gh : Ghost) (t : TLState) (reqs : List Request) (h : SessInv s gh t reqs)
-    (hq : s2.sync.queues = s.sync.queues) (hc : s2.sync.currentFrame = s.sync.currentFrame)
-    (hp : s2.pred = s.pred) (hst : s2.localConnectStatus = s.localConnectStatus) (hh : s2.handles = s.handles) :
-    SessInv s2 gh t reqs := by
-  have hlp : s2.localPlayerHandles = s.localPlayerHandles := by unfold P2P.localPlayerHandles; rw [hh]
-  refine ⟨⟨?_, by rw [hc]; exact h.tinv.exec, by rw [hq]; exact h.tinv.rows⟩, by rw [hq, hc]; exact h.asked,
-    by rw [hq, hst]; exact h.status, by rw [hq, hst, hlp]; exact h.remote⟩
-  rw [hp, hst]
-  exact SyncInv_congr h.tinv.sync hq hc
-
-theorem userExecute_lastSaved (s : P2P) (saves : List (Frame × Option Nat)) :
-    (s.userExecute saves).sync.lastSavedFrame = s.sync.lastSavedFrame := by
-  unfold P2P.userExecute
-  simp only
-  generalize s.sync = sy
-  induction saves generalizing sy with
-  | nil => rfl
-  | cons a as ih => simp only [List.foldl_cons]; rw [ih]; rfl
 
 /-- The mode-specific part of the check-state invariant: without sparse saving every written cell
 is valid and the ghost tags are the cells' tags; with sparse saving every written cell is valid and
@@ -241,6 +197,9 @@ inductive WStep {G : Type} (step : G → List (Input × InputStatus) → G) : (P
       ({ s with sync := sy } : P2P).advanceRollbackFrame now [r] = .ok (s', reqs') →
       saves.map (·.1) = savedFrames reqs' →
       WStep step (s, x) (s'.userExecute saves, execGs step s.sync.cells.length x reqs')
+  /-- the user submits a local player's input for the coming call (`add_local_input`) -/
+  | localInput (s : P2P) (x : GS G) (handle : Nat) (input : Input) :
+      WStep step (s, x) ((s.addLocalInput handle input).1, x)
 
 inductive WStar {G : Type} (step : G → List (Input × InputStatus) → G) : (P2P × GS G) → (P2P × GS G) → Prop
   | refl (w) : WStar step w w
@@ -325,6 +284,12 @@ theorem WInv_step {G : Type} (step : G → List (Input × InputStatus) → G) (g
   | tick s s' x now reqs' saves hadv hsaves => exact (WInv_tick step g0 s s' x now reqs' saves h hadv hsaves).1
   | tick0 s s' x now sy r reqs' saves h0 hsv hadv hsaves =>
     exact (WInv_tick0 step g0 s s' x now sy r reqs' saves h h0 hsv hadv hsaves).1
+  | localInput s x handle input =>
+    obtain ⟨l, hl⟩ := P2P.addLocalInput_pending s handle input
+    show WInv step g0 (s.addLocalInput handle input).1 x
+    rw [hl]
+    obtain ⟨gh, hsess⟩ := h.sess
+    exact ⟨⟨gh, SessInv_pending s gh _ [] l hsess⟩, h.ncells, h.chk⟩
 
 /-- **L-world.** -/
 theorem WInv_run {G : Type} (step : G → List (Input × InputStatus) → G) (g0 : G) (a b : P2P × GS G)
